@@ -66,7 +66,7 @@ package delegation
 //@ func (*Token).validate
 //@   requires t != nil
 //@   ensures [C10] wf: result == nil ==> wfDlg(t)
-//@   ensures [C07] sealable: result == nil ==> sealable(t)
+//@   ensures [C07,C10] sealable: result == nil ==> sealable(t)
 //@   ensures [C10,C07] complete: wfDlg(t) && sealable(t) ==> result == nil
 //@   assigns [C20] nothing
 //@
